@@ -56,10 +56,11 @@ def summarize(ind_list):
 class E2EModel:
     """A sends; B is the addressed receiver; C is a third station outside the destination area."""
 
-    def __init__(self, algo="SIMPLE", max_req=3, kinds=("shb", "gbc", "gac", "guc"), max_depth_events=None):
+    def __init__(self, algo="SIMPLE", max_req=3, kinds=("shb", "gbc", "gac", "guc"), max_depth_events=None, beacons=1):
         self.algo = algo
         self.max_req = max_req
         self.kinds = kinds
+        self.beacons = beacons      # how often B may beacon (2: a relay can know a newer position of B than the sender)
 
     def init(self):
         net = Net()
@@ -80,7 +81,7 @@ class E2EModel:
         if len(w.reqs) < self.max_req:
             for k in self.kinds:
                 evs.append(("req", k))
-        if w.n["beacon"] < 1:
+        if w.n["beacon"] < self.beacons:
             evs.append(("beaconB",))
         if w.n["unrel"] < 2:
             evs.append(("unrel",))
@@ -104,6 +105,9 @@ class E2EModel:
             w.deliver((ev[1], ev[2]))
         elif ev[0] == "beaconB":
             w.n["beacon"] += 1
+            if w.n["beacon"] > 1:
+                w.now += 1.0                       # a later beacon: newer position timestamp (ego PV has 1 s resolution)
+                w.call(b.refresh)
             w.call(b.gn.gn_data_request_beacon)
         elif ev[0] == "unrel":
             w.n["unrel"] += 1
@@ -180,8 +184,13 @@ class E2EModel:
         sts = []
         for n in "ABC":
             s = w.stations[n]
-            sts.append((X.generic_canon(s.gn.location_table), X.generic_canon(s.gn._ls_packet_buffers), X.generic_canon(s.gn._ls_retransmit_counters),
-                        s.gn.sequence_number, X.generic_canon(s.gn.ego_position_vector), tuple((p, bytes(i.data)) for p, i in s.btp_indications)))
+            try:
+                core = (X.generic_canon(s.gn.location_table), X.generic_canon(s.gn._ls_packet_buffers),
+                        X.generic_canon(s.gn._ls_retransmit_counters), s.gn.sequence_number, X.generic_canon(s.gn.ego_position_vector))
+            except AttributeError:
+                # refactored router: fall back to the generic digest of the whole router object (finer states, same soundness)
+                core = X.generic_canon(s.gn)
+            sts.append((core, tuple((p, bytes(i.data)) for p, i in s.btp_indications)))
         return (tuple(sts), tuple(sorted((k, tuple(q)) for k, q in w.queues.items() if q)), tuple(r["kind"] for r in w.reqs),
                 tuple(sorted(w.n.items())), tuple(round(t.due - w.now, 6) for t in w.pending_timers()), round(w.now % 1.0, 3))
 
@@ -192,8 +201,8 @@ class E2EModel:
 X.SKIP_TYPES = (S.EtherLL, S.Net, S.Station, S._PortHandler)
 
 
-def mk_model(algo, max_req, kinds):
-    return E2EModel(algo, max_req, kinds)
+def mk_model(algo, max_req, kinds, beacons=1):
+    return E2EModel(algo, max_req, kinds, beacons=beacons)
 
 
 # ------------------------------------------------------------------------------------------------
@@ -353,12 +362,13 @@ def run(ctx):
     states = trans = xchecks = 0
     digests, samples, outcomes, caps = [], [], set(), []
     complete = True
-    plans = [("SIMPLE", 3, ("shb", "gbc", "gac", "guc"), 5 if not thorough else 7),
-             ("SIMPLE", 3, ("guc",), 7 if not thorough else 9),
-             ("CBF", 2, ("gbc", "guc"), 5 if not thorough else 7)]
-    for algo, max_req, kinds, depth in plans:
-        label = f"histories_{algo}_{'-'.join(kinds)}_d{depth}"
-        r = X.parallel_bfs(mk_model, (algo, max_req, kinds), depth, split_depth=2, xcheck_every=401)
+    plans = [("SIMPLE", 3, ("shb", "gbc", "gac", "guc"), 5 if not thorough else 7, 1),
+             ("SIMPLE", 3, ("guc",), 7 if not thorough else 9, 1),
+             ("SIMPLE", 1, ("guc",), 7 if not thorough else 9, 2),     # relay with a newer destination position (two beacons of B)
+             ("CBF", 2, ("gbc", "guc"), 5 if not thorough else 7, 1)]
+    for algo, max_req, kinds, depth, beacons in plans:
+        label = f"histories_{algo}_{'-'.join(kinds)}_r{max_req}_b{beacons}_d{depth}"
+        r = X.parallel_bfs(mk_model, (algo, max_req, kinds, beacons), depth, split_depth=2, xcheck_every=401)
         states += r.states
         trans += r.transitions
         xchecks += r.xchecks
@@ -371,7 +381,7 @@ def run(ctx):
                 complete = False
         for rec, hist in r.violations:
             rec["part"] = label
-            ctx.violation(rec, replay=dict(algo=algo, max_req=max_req, kinds=list(kinds), history=hist))
+            ctx.violation(rec, replay=dict(algo=algo, max_req=max_req, kinds=list(kinds), beacons=beacons, history=hist))
         ctx.parts[label] = dict(states=r.states, transitions=r.transitions, max_depth=r.max_depth, pruned=r.pruned, xchecks=r.xchecks,
                                 outcomes=len(r.outcomes))
     # ---- E3 -------------------------------------------------------------------------------------
@@ -428,7 +438,7 @@ def replay(path):
     rp = rec["replay"]
     if "history" not in rp:
         return 1
-    m = E2EModel(rp["algo"], rp["max_req"], tuple(rp["kinds"]))
+    m = E2EModel(rp["algo"], rp["max_req"], tuple(rp["kinds"]), beacons=rp.get("beacons", 1))
     w = m.init()
     bad = []
     for ev in rp["history"]:
